@@ -195,6 +195,11 @@ class C03(Prop):
         faults.append(("foreign", {"foreign": "http", "seed": R.bits(30)}))
         faults.append(("foreign", {"foreign": "udp", "seed": R.bits(30)}))
         faults.append(("foreign", {"foreign": "udp_vneg", "seed": R.bits(30)}))
+        if full or R.chance(35):
+            # several hundred unrelated datagrams, each from another host and port and each looking like the start of a
+            # QUIC connection, in the middle of the capture
+            faults.append(("foreign", {"foreign": "udp_burst", "seed": R.bits(30),
+                                       "at_us": max(1, (tl[len(tl) // 2]["t"] - tl[0]["t"]) // 1000) if tl else 1}))
         if full or R.chance(50):
             faults.append(("foreign", {"foreign": "udp", "seed": R.bits(30)}))
         # pairs of faults (thorough: 40 sampled pairs; quick: 2), e.g. a lost packet AND a missing key line
@@ -233,6 +238,14 @@ class C03(Prop):
             k = max(c["id"] for c in s2["conns"]) + 1
             if f["foreign"] == "http":
                 s2["conns"].append(gen.gen_http_conn(R, k, used, port=443, v6=R.chance(30)))
+            elif f["foreign"] == "udp_burst":
+                c = gen.gen_udp_noise(R, k, used, v6=R.chance(30), port=R.choice([443, 443, 8443, R.range(1024, 65535)]))
+                c["dgrams"] = [["c", (bytes([0xC0 | R.below(64)]) + R.bytes(R.range(6, 40))).hex()] for _ in range(R.range(280, 340))]
+                c["src_per_dgram"] = True
+                c["t"]["start_us"] = f.get("at_us", 1)
+                c["t"]["gap_ns"] = 700
+                c["t"]["think_us"] = 0
+                s2["conns"].append(c)
             elif f["foreign"] == "udp_vneg":
                 # datagrams that look like QUIC Version Negotiation / unknown versions (arbitrary UDP payloads)
                 c = gen.gen_udp_noise(R, k, used, v6=R.chance(30), port=R.choice([443, 8443, R.range(1024, 65535)]))
